@@ -55,11 +55,28 @@ def fetch_sites(b):
             res = r.local(t['dest']['l'])
             out.append(('read@' + (b.locals[t['dest']['l']].get('name') or ''), t['target'], {('fld', res, '0')}, BYTE, bi))
     # the non-ASCII byte of the ASCII fast path: locals named non_ascii
+    for i in non_ascii_locals(b):
+        ents = [d[0] for d in b.defs.get(i, []) if d[2] == 'assign']
+        if ents:
+            out.append(('non_ascii', ents, {('loc', i)}, NONASCII, None))
+    return out
+
+
+def non_ascii_locals(b):
+    """u8 locals that receive the non-ASCII byte of the ASCII fast path: one of their definitions is component 0 of the GoOn payload
+    of a copy_ascii_from_check_space_* result (found structurally, not by name)."""
+    out = []
+    r = Resolver(b)
     for i, l in enumerate(b.locals):
-        if l.get('name') == 'non_ascii' and l['ty'] == 'u8':
-            ents = [d[0] for d in b.defs.get(i, []) if d[2] == 'assign']
-            if ents:
-                out.append(('non_ascii', ents, {('loc', i)}, NONASCII, None))
+        if l['ty'] != 'u8' or i <= b.arg_count:
+            continue
+        for d in b.defs.get(i, []):
+            if d[2] != 'assign':
+                continue
+            v = r.rvalue(d[3]['rv'])
+            if v[0] == 'fld' and v[2] == '0' and v[1][0] == 'fld' and v[1][1][0] == 'as' and v[1][1][2] == 'GoOn':
+                out.append(i)
+                break
     return out
 
 
@@ -70,9 +87,8 @@ def classes(f, b):
     reads = {bi for bi, t in b.calls() if (b.callee(t) or '').endswith(('ByteReadHandle::read', 'ByteSource::check_available'))
              or 'copy_ascii_from' in (b.callee(t) or '') or 'copy_utf' in (b.callee(t) or '')}
     na_defs = set()
-    for i, l in enumerate(b.locals):
-        if l.get('name') == 'non_ascii' and l['ty'] == 'u8':
-            na_defs |= {d[0] for d in b.defs.get(i, []) if d[2] == 'assign'}
+    for i in non_ascii_locals(b):
+        na_defs |= {d[0] for d in b.defs.get(i, []) if d[2] == 'assign'}
     reads = reads | na_defs      # a byte handed over to the lead-byte logic is classified there
     res = []
     for kind, entry, xk, dom, rbi in fetch_sites(b):
